@@ -92,12 +92,16 @@ class Area(object):
         self.out = self.wd / 'out'
         self.tmp = self.wd / 'tmp'
         self.job = self.wd / 'job'
-        for d in (self.inp, self.out, self.tmp, self.job):
+        # stand-in for the system temp directory (TMPDIR of every stage
+        # process): private to the history, watched like the others
+        self.systmp = self.wd / 'systmp'
+        for d in (self.inp, self.out, self.tmp, self.job, self.systmp):
             d.mkdir()
         self.n = 0
 
     def watched(self):
-        return [str(self.inp), str(self.out), str(self.tmp)]
+        return [str(self.inp), str(self.out), str(self.tmp),
+                str(self.systmp)]
 
     def tag(self):
         self.n += 1
@@ -188,6 +192,7 @@ def mapping_job(rng, area, failure, tag, tmp_dir=True, obsm=False):
     if cfg['csv_result_path']:
         outputs.append(cfg['csv_result_path'])
     scratch = [str(area.tmp)] if tmp_dir else [str(out)]
+    scratch.append(str(area.systmp))
     if obsm:
         # "the query file is written to only when storing results in it is
         # requested": then, and only then, the query is also an output
@@ -221,7 +226,8 @@ def precompute_job(rng, area, tag, encoding='csr'):
                     'n_processors': rng.choice([1, 2]),
                     'rows_at_a_time': rng.choice([5, 11, 100])},
             'inputs': [str(ref)], 'outputs': [str(out)],
-            'scratch': [str(area.tmp)], 'failure': 'success',
+            'scratch': [str(area.tmp), str(area.systmp)],
+            'failure': 'success',
             'encoding': encoding, 'expect_ok': True}
 
 
@@ -232,7 +238,8 @@ def markers_job(rng, area, tag, stats_path):
                     'output_path': str(out), 'tmp_dir': str(area.tmp),
                     'n_processors': rng.choice([1, 2])},
             'inputs': [str(stats_path)], 'outputs': [str(out)],
-            'scratch': [str(area.tmp)], 'failure': 'success',
+            'scratch': [str(area.tmp), str(area.systmp)],
+            'failure': 'success',
             'encoding': '-', 'expect_ok': True}
 
 
@@ -250,7 +257,8 @@ def validate_job(rng, area, tag, encoding='csr'):
             'inputs': [str(q)], 'outputs': [],
             'output_glob': re.escape(str(area.out)) + '/' + re.escape(tag)
             + r'_q_VALIDATED_\d+\.h5ad$',
-            'scratch': [str(area.tmp)], 'failure': 'success',
+            'scratch': [str(area.tmp), str(area.systmp)],
+            'failure': 'success',
             'encoding': encoding, 'expect_ok': True}
 
 
@@ -348,7 +356,8 @@ def run_specs(ctx, area, specs, history, traced=True):
     for s in specs:
         s['tag'] = area.tag()
         if traced:
-            handles.append(fsmon.start_traced(s['job'], area.job, s['tag']))
+            handles.append(fsmon.start_traced(s['job'], area.job, s['tag'],
+                                              tmpdir=area.systmp))
     outs = []
     for s, h in zip(specs, handles):
         status, text = fsmon.finish_traced(h)
@@ -358,7 +367,8 @@ def run_specs(ctx, area, specs, history, traced=True):
             f.unlink()
     if not traced:
         for s in specs:
-            s['status'] = fsmon.run_plain(s['job'], area.job, s['tag'])
+            s['status'] = fsmon.run_plain(s['job'], area.job, s['tag'],
+                                          tmpdir=area.systmp)
             s['events'] = None
     after, dig1 = snapshot(area)
     for s in specs:
@@ -427,10 +437,18 @@ def check_one(ctx, area, spec, all_specs, history, before, dig0, after,
                 early = ''
                 if spec['failure'] == 'unwritable_output':
                     early = '-early'
-                if spec['failure'].startswith('worker_') and not st['ok']:
-                    # an orphaned worker may outlive the failed run and keep
-                    # writing: runtime behaviour, its own class
+                if spec['failure'].startswith('worker_') and not st['ok'] \
+                        and all(re.match(
+                            r'^result_buffer_[a-z0-9_]{8}(/results_buffer_'
+                            r'[a-z0-9_]{8}(/\d+_\d+_assignment\.json)?)?$',
+                            os.path.relpath(x, sd)) for x in left):
+                    # an orphaned worker outlived the failed run and kept
+                    # writing into result_buffer_*/results_buffer_*: runtime
+                    # behaviour, its own class (exactly this shape)
                     cls = 'after-worker-failure'
+                if sd == str(area.systmp):
+                    # left in the system temp directory (TMPDIR)
+                    pat = 'system-tmp/' + pat
                 ctx.violation(
                     'C19/scratch/%s-left-%s%s' % (pat, cls, early),
                     '%s run (%s, %s) left %s in the scratch directory'
@@ -579,7 +597,8 @@ def solo_result(ctx, rng_state, build, label):
         area = Area(wd)
         spec = build(r, area)
         spec['tag'] = area.tag()
-        spec['status'] = fsmon.run_plain(spec['job'], area.job, spec['tag'])
+        spec['status'] = fsmon.run_plain(spec['job'], area.job, spec['tag'],
+                                         tmpdir=area.systmp)
         after, _ = snapshot(area)
         if spec.get('output_glob'):
             rx = re.compile(spec['output_glob'])
@@ -641,6 +660,7 @@ def history_mapping(ctx, rng, failure, encoding_hint=None, tmp_dir=True,
         area = Area(wd)
         plant_stale(rng, area.tmp)
         plant_stale(rng, area.out, k=6)
+        plant_stale(rng, area.systmp, k=4)
         if failure:
             bad = mapping_job(rng, area, failure, 'bad', tmp_dir)
             run_specs(ctx, area, [bad], hist + ':failing', traced=traced_all)
